@@ -344,7 +344,7 @@ def run(P, R):
     pm = [a for a in own_nodes(ur.node) if isinstance(a, ast.Assign) and ast.unparse(a.targets[0]) == 'possible_major_failure'
           and ast.unparse(a.value) == 'True']
     crash_neg = {('process.displayed_state in [ProcessStates.FATAL, ProcessStates.UNKNOWN]', False),
-                 ('process.displayed_state == ProcessStates.EXITED and (not process.expected_exit)', False)}
+                 ('not process.displayed_state == ProcessStates.EXITED or process.expected_exit', True)}
     ok = len(pm) == 1 and {tuple(f) for f in fmr.at(pm[0])} == crash_neg | {
         ('process.displayed_state == ProcessStates.STOPPED', True), ('process.rules.required', True)}
     R.check(r6, ok, 'a required STOPPED process is a possible major failure', 'status|possible', ur.loc(),
